@@ -14,7 +14,7 @@ import (
 	"github.com/VolantMQ/volantmq/metrics"
 )
 
-var subProtocolRegexp = regexp.MustCompile(`^mqtt(([vV])(3.1|3.1.1|5.0))?$`)
+var subProtocolRegexp = regexp.MustCompile(`^mqtt(([vV])(3\.1|3\.1\.1|5\.0))?$`)
 
 type httpServer struct {
 	http *http.Server     // nolint:structcheck
